@@ -134,7 +134,15 @@ def _eq(a, b):
         except TypeError:       # structured arrays (multiple_collective)
             return np.array_equal(a, b)
     if isinstance(a, (pd.DataFrame, pd.Series)):
-        return a.equals(b)
+        if not isinstance(b, type(a)) or a.shape != b.shape or list(a.index) != list(b.index):
+            return False
+        if isinstance(a, pd.DataFrame) and list(a.columns) != list(b.columns):
+            return False
+        try:
+            # float tables (rates, activation energies): rounding-level differences after in-place representation changes are not differences of results
+            return bool(np.allclose(a.to_numpy(dtype=float), b.to_numpy(dtype=float), rtol=1e-9, atol=1e-300, equal_nan=True))
+        except (TypeError, ValueError):
+            return a.equals(b)
     if isinstance(a, (tuple, list)):
         return len(a) == len(b) and all(_eq(x, y) for x, y in zip(a, b))
     if hasattr(a, 'edges') and hasattr(a, 'nodes'):
